@@ -24,6 +24,8 @@ type replayDriver struct {
 var replayTable = []replayDriver{
 	{Funcs: []string{"iobroker.Broker.proxyOut#1"}, PkgDir: "internal/iobroker", File: "iobroker_readerleak_test.go", Test: "TestVerifReplayReaderLeak"},
 	{Funcs: []string{"iobroker.Broker.ConnectInOut"}, PkgDir: "internal/iobroker", File: "iobroker_crosspair_test.go", Test: "TestVerifReplayCrossPair"},
+	{Funcs: []string{"shellfuncsfile.FromPerl"}, PkgDir: "lib/shellfuncsfile", File: "shellfuncsfile_emptyperl_test.go", Test: "TestVerifReplayEmptyPerl"},
+	{Funcs: []string{"shellfuncsfile.Converter.fromSingleFile", "shellfuncsfile.Converter.fromDirectory"}, PkgDir: "lib/shellfuncsfile", File: "shellfuncsfile_c17_test.go", Test: "TestVerifReplayC17"},
 	{Funcs: []string{"simpleshell.Go"}, PkgDir: "lib/simpleshell", File: "simpleshell_defaultclient_test.go", Test: "TestVerifReplayDefaultClient"},
 	{Funcs: []string{"simpleshell.CmdShell.Go"}, PkgDir: "lib/simpleshell", File: "simpleshell_cmdshell_test.go", Test: "TestVerifReplayCmdShellDrain"},
 	{Funcs: []string{"hsrv.Server.RLogf", "hsrv.Server.RErrorLogf", "hsrv.Server.Logf", "hsrv.Server.ErrorLogf"}, PkgDir: "internal/hsrv", File: "hsrv_rlogf_test.go", Test: "TestVerifReplayRLogf"},
